@@ -10,39 +10,10 @@
 \*   - no further poll happens after the one that observed the cancellation;
 \*   - if the execution ended before its k-th poll (lax Exists answers at the
 \*     first item) the outcome is that of the uncancelled run.
-EXTENDS ExecLaws, Universe, SequencesExt, Json
+EXTENDS ExecLaws, PathPool, SequencesExt, Json
 
 CONSTANTS MaxNodes
 
-KM == <<109>>
-At(a) == <<NCur>> \o a
-Rt(a) == <<NRoot>> \o a
-(* every consumer of an operand's status and every node kind *)
-ExprPaths ==
-  { Rt(<<NAnyArr>>), Rt(<<NKey(KA)>>), Rt(<<NAnyKey>>), Rt(<<NAny(0, -1)>>), Rt(<<NAny(1, 2), NKey(KA)>>),
-    Rt(<<NIdx(<<Sub1(Lit(0)), Sub1(<<NLast>>)>>)>>), Rt(<<NIdx(<<Sub2(Rt(<<NKey(KB)>>), <<NLast>>)>>)>>),
-    Rt(<<NAny(2, 2), NKey(KA)>>), Rt(<<NAny(2, -1), NKey(KA)>>), Rt(<<NAny(1, 1), NAnyArr, NKey(KA)>>),
-    Rt(<<NAnyArr, NFilter(NBin("gt", At(<<>>), Lit(0)))>>),
-    Rt(<<NAnyArr, NFilter(NUn("exists", At(<<NKey(KA)>>)))>>),
-    Rt(<<NAnyArr, NFilter(NUn("isunknown", <<NBin("eq", At(<<NKey(KA)>>), Lit(1))>>))>>),
-    Rt(<<NAnyArr, NFilter(NUn("not", <<NBin("eq", At(<<>>), Lit(1))>>))>>),
-    Rt(<<NAnyArr, NFilter(NBin("and", <<NBin("gt", At(<<>>), Lit(0))>>, <<NBin("lt", At(<<>>), Lit(3))>>))>>),
-    Rt(<<NAnyArr, NFilter(NBin("or", <<NBin("gt", At(<<>>), Lit(5))>>, <<NBin("lt", At(<<>>), Lit(3))>>))>>),
-    Rt(<<NAnyArr, NFilter(NBin("gt", At(<<>>), Lit(0))), NMethod("double")>>),
-    Rt(<<NFilter(NBin("gt", At(<<NAnyArr>>), Rt(<<NKey(KB)>>)))>>),
-    Rt(<<NFilter(NBin("starts", At(<<NKey(KA)>>), <<NStr(KX)>>))>>), Rt(<<NFilter(NRegex(At(<<NAnyArr>>), KA, NoFlags))>>),
-    <<NBin("add", Rt(<<NKey(KA)>>), Rt(<<NKey(KB)>>))>>, <<NBin("mul", Rt(<<NIdx(<<Sub1(Lit(0))>>)>>), Lit(2))>>,
-    <<NUn("minus", Rt(<<NAnyArr>>))>>, <<NUn("plus", Rt(<<NAnyArr>>)), NMethod("abs")>>,
-    Rt(<<NAnyArr, NMethod("size")>>), Rt(<<NAnyArr, NMethod("type")>>), Rt(<<NMethod("keyvalue"), NKey(<<107,101,121>>)>>),
-    Rt(<<NAnyArr, NMethod("string")>>), Rt(<<NAnyArr, NDecimal2(VInt(3), VInt(1))>>),
-    <<NVar(KX), NAnyArr>>, Lit(1), <<NBin("gt", Rt(<<NAnyArr>>), Lit(1)), NMethod("type")>> }
-PredPaths ==
-  { NBin("gt", Rt(<<NAnyArr>>), Lit(1)), NUn("exists", Rt(<<NAnyArr, NKey(KA)>>)),
-    NUn("isunknown", <<NBin("eq", Rt(<<NKey(KA)>>), Lit(1))>>),
-    NUn("isunknown", <<NUn("exists", Rt(<<NAnyArr>>))>>),
-    NUn("not", <<NUn("exists", Rt(<<NAny(0, -1), NKey(KB)>>))>>),
-    NBin("and", <<NUn("exists", Rt(<<NKey(KA)>>))>>, <<NBin("eq", Rt(<<NKey(KB)>>), Lit(2))>>),
-    NBin("or", <<NBin("eq", Rt(<<NKey(KA)>>), Lit(7))>>, <<NUn("isunknown", <<NBin("lt", Rt(<<NAnyArr>>), <<NStr(KA)>>)>>)>>) }
 PathRows == SetToSeq({[pred |-> FALSE, chain |-> p] : p \in ExprPaths} \cup {[pred |-> TRUE, chain |-> <<q>>] : q \in PredPaths})
 DocSeq == SetToSeq(
   TreesUpTo({VFlt(1), VStr(KX)}, <<KA, KB>>, MaxNodes)
